@@ -425,3 +425,16 @@ pub fn excerpt(bytes: &[u8], max: usize) -> String {
     }
     t
 }
+
+/// Title of the first error diagnostic in (possibly coloured) output: `error[kind]: Title`.
+pub fn first_error_title(stdout: &[u8]) -> Option<String> {
+    let plain = strip_ansi(&stdout[..stdout.len().min(1 << 20)]);
+    let text = String::from_utf8_lossy(&plain);
+    for line in text.lines() {
+        let l = line.trim_start();
+        if l.starts_with("error[") || l.starts_with("error:") {
+            return Some(l.chars().take(80).collect::<String>().trim_end().to_string());
+        }
+    }
+    None
+}
